@@ -55,7 +55,11 @@ template <typename PH>
 inline
 H79_Certificate::H79_Certificate(const PH& ph)
   : affine_dim(0), num_constraints(0) {
-  H79_Certificate cert(Polyhedron(NECESSARILY_CLOSED, ph.constraints()));
+  const Constraint_System& cs = ph.constraints();
+  H79_Certificate cert(Polyhedron(cs.has_strict_inequalities()
+                                  ? NOT_NECESSARILY_CLOSED
+                                  : NECESSARILY_CLOSED,
+                                  cs));
   affine_dim = cert.affine_dim;
   num_constraints = cert.num_constraints;
 }
@@ -63,7 +67,11 @@ H79_Certificate::H79_Certificate(const PH& ph)
 template <typename PH>
 inline int
 H79_Certificate::compare(const PH& ph) const {
-  return this->compare(Polyhedron(NECESSARILY_CLOSED, ph.constraints()));
+  const Constraint_System& cs = ph.constraints();
+  return this->compare(Polyhedron(cs.has_strict_inequalities()
+                                  ? NOT_NECESSARILY_CLOSED
+                                  : NECESSARILY_CLOSED,
+                                  cs));
 }
 
 } // namespace Parma_Polyhedra_Library
